@@ -1,5 +1,6 @@
 pub mod c01;
 pub mod c02;
+pub mod c03;
 pub mod c04;
 pub mod c05;
 pub mod c05d;
@@ -29,6 +30,7 @@ pub struct PropDef {
 pub const PROPS: &[PropDef] = &[
     PropDef { id: "C01", level: "exploration", run: c01::run, shards: 12, isolate: false },
     PropDef { id: "C02", level: "exploration", run: c02::run, shards: 12, isolate: false },
+    PropDef { id: "C03", level: "exploration", run: c03::run, shards: 12, isolate: false },
     PropDef { id: "C04", level: "exploration", run: c04::run, shards: 12, isolate: false },
     PropDef { id: "C05", level: "exploration", run: c05::run, shards: 12, isolate: true },
     PropDef { id: "C08", level: "fault_enumeration", run: c08::run, shards: 8, isolate: false },
